@@ -242,6 +242,11 @@ def main(chk):
     n = 320 if quick else 3000
     for i in range(n):
         jobs.append({"id": "s%d" % i, "kind": "soup", "seed": job_seed(chk.seed, "C10", i), "n": 60 if quick else 100})
+    if not quick:
+        soups = [j for j in jobs if j["kind"] == "soup"]
+        jobs += chk.shard(soups[:120] + [j for j in jobs if j["kind"] == "directed"], "asan", 140)
+        jobs += chk.shard(soups[120:260], "arith", 140)
+        jobs += chk.shard([dict(j, n=12) for j in soups[260:266]], "valgrind", 6)
     chk.run_jobs(jobs, budget_s=420 if quick else 3000)
     return chk.finish(
         rule="argument vectors: token soups of length 1..16 over keywords, operators (also unknown ones), arithmetic symbols and words, both "
